@@ -1,9 +1,22 @@
 package types
 
 import (
+	"unicode/utf8"
+
 	sdk "github.com/cosmos/cosmos-sdk/types"
 	sdkerrors "github.com/cosmos/cosmos-sdk/types/errors"
 )
+
+// validText reports whether every given text field is valid UTF-8. Anything else cannot be
+// represented in JSON: a genesis export would silently replace the offending bytes.
+func validText(fields ...string) bool {
+	for _, f := range fields {
+		if !utf8.ValidString(f) {
+			return false
+		}
+	}
+	return true
+}
 
 const (
 	RouterKey = ModuleName // defined in keys.go file
@@ -63,6 +76,10 @@ func (msg MsgRegisterWrkChain) ValidateBasic() error {
 
 	if len(msg.GenesisHash) > 66 {
 		return sdkerrors.Wrap(ErrContentTooLarge, "genesis hash too big. 66 character limit")
+	}
+
+	if !validText(msg.Moniker, msg.Name, msg.GenesisHash, msg.BaseType) {
+		return sdkerrors.Wrap(sdkerrors.ErrInvalidRequest, "moniker, name, genesis hash and type must be valid UTF-8 text")
 	}
 
 	return nil
@@ -146,6 +163,9 @@ func (msg MsgRecordWrkChainBlock) ValidateBasic() error {
 	}
 	if len(msg.Hash3) > 66 {
 		return sdkerrors.Wrap(ErrContentTooLarge, "hash3 too big. 66 character limit")
+	}
+	if !validText(msg.BlockHash, msg.ParentHash, msg.Hash1, msg.Hash2, msg.Hash3) {
+		return sdkerrors.Wrap(sdkerrors.ErrInvalidRequest, "hashes must be valid UTF-8 text")
 	}
 
 	return nil
